@@ -154,7 +154,22 @@ fn worker(args: &[String]) -> i32 {
         .ok();
         let want_log = samples.len() < 2 && shard == 0;
         let t0 = Instant::now();
+        let rz0 = alloc::redzone_corruptions();
         let o = run_guarded(&sc, want_log, hang_limit);
+        let o = o.map(|mut o| {
+            // a write past the end of a heap block (detected when the block is freed)
+            if o.violation.is_none() && alloc::redzone_corruptions() > rz0 {
+                o.violation = Some(Violation {
+                    property: prop.clone(),
+                    oracle: "heap_bounds".into(),
+                    task: 0,
+                    step: 0,
+                    detail: "a heap block's red zone was overwritten during this run (write past the end of an allocation)".into(),
+                    signature: "heap_redzone_corrupted".into(),
+                });
+            }
+            o
+        });
         let o = match o {
             Some(o) => o,
             None => {
